@@ -1,7 +1,9 @@
 // E2 harness for tulz::Array: C14 (value semantics, element lifetimes, no access outside the allocation).
 #include <tulz/container/Array.h>
 
+#include <cmath>
 #include <deque>
+#include <limits>
 #include <memory>
 #include <set>
 #include <string>
@@ -231,7 +233,22 @@ template<typename T> void enumerate(int maxlen, int depth, Stats &st) {
     }
 }
 
+// "exactly those values": a fill value must arrive bit for bit (negative zero compares equal to zero, a NaN to nothing; both have their own representation)
+template<typename F> void fill_values(const char *tn) {
+    const F vals[] = {F(0), -F(0), F(1.5), std::numeric_limits<F>::quiet_NaN(), std::numeric_limits<F>::denorm_min(), -std::numeric_limits<F>::denorm_min(), std::numeric_limits<F>::infinity()};
+    const char *vn[] = {"+0", "-0", "1.5", "NaN", "denorm_min", "-denorm_min", "inf"};
+    auto same = [](const F &a, const F &b) { return std::signbit(a) == std::signbit(b) && ((std::isnan(a) && std::isnan(b)) || a == b); };
+    for (int vi = 0; vi < 7; vi++) for (size_t n : {(size_t)1, (size_t)3, (size_t)1000}) {
+        std::string hist = fmt("fill T=%s value=%s n=%zu", tn, vn[vi], n);
+        mark(hist); shm->evaluations++; shm->transitions++; shm->nontrivial++;
+        { Array<F> a(n, vals[vi]); for (size_t i = 0; i < n; i++) if (!same(a[i], vals[vi])) { violation("model:fill-value", fmt("Array<%s>(%zu, %s): element %zu is not the fill value (it differs in sign or kind)", tn, n, vn[vi], i), hist); break; } }
+        { Array<F> a(2, F(7)); a.resize(2 + n, vals[vi]); if (a[0] != F(7) || a[1] != F(7)) violation("model:fill-value", "resize(n, value) changed the kept elements", hist);
+          for (size_t i = 2; i < 2 + n; i++) if (!same(a[i], vals[vi])) { violation("model:fill-value", fmt("Array<%s>::resize(%zu, %s): new element %zu is not the fill value (it differs in sign or kind)", tn, 2 + n, vn[vi], i), hist); break; } }
+    }
+}
+
 void explore() {
+    fill_values<float>("float"); fill_values<double>("double"); fill_values<long double>("longdouble");
     int maxlen = thorough() ? 4 : 3;
     std::set<std::string> seen; Stats st;
     bfs<int>(maxlen, seen, st);
@@ -248,6 +265,7 @@ void explore() {
 }
 
 void replay(const std::string &hist) {
+    if (hist.compare(0, 5, "fill ") == 0) { if (hist.find("T=float") != std::string::npos) fill_values<float>("float"); else if (hist.find("T=double") != std::string::npos) fill_values<double>("double"); else fill_values<long double>("longdouble"); return; }
     Config c; std::vector<Op> h;
     if (!parse_hist(hist, c, h)) { violation("replay:parse", "cannot parse history " + hist); return; }
     auto go = [&](auto sys) {
